@@ -316,8 +316,15 @@ func delegateTarget(fn *ssa.Function) *ssa.Function {
 		if g == nil || g.Blocks == nil || g.Pkg != fn.Pkg || len(call.Call.Args) < len(fn.Params) {
 			return fn
 		}
-		for i, p := range fn.Params {
-			if call.Call.Args[i] != ssa.Value(p) {
+		// every parameter is handed on (extra arguments — an options value, a nil hook — may come before or after)
+		for _, p := range fn.Params {
+			passed := false
+			for _, a := range call.Call.Args {
+				if a == ssa.Value(p) {
+					passed = true
+				}
+			}
+			if !passed {
 				return fn
 			}
 		}
